@@ -45,6 +45,7 @@ LATE = 'late0'
 LATE_METHOD = 'LateK.lmeth'
 UNKNOWN = ['ghost0', 'ghost1', 'pk.ghost2']
 DYN_MOD = 'vsim_c15.moda'
+IMPREG = 'impreg'
 
 
 def _val(rng, allow_unknown_ref=True, allow_macro=True):
@@ -71,7 +72,7 @@ class _FailingModuleFinder(object):
 
   @staticmethod
   def find_spec(name, path=None, target=None):
-    if name != 'vsim_c15_optdep':
+    if name not in ('vsim_c15_optdep', 'vsim_c15_registers'):
       return None
     import importlib.machinery
 
@@ -83,7 +84,13 @@ class _FailingModuleFinder(object):
 
       @staticmethod
       def exec_module(module):
-        raise ImportError('optional dependency missing')
+        if module.__name__ == 'vsim_c15_optdep':
+          raise ImportError('optional dependency missing')
+        # vsim_c15_registers: importing it registers the configurable mm.impreg
+        # (the usual way a name becomes known in the middle of a file)
+        def impreg(a='dflt', b='dflt'):
+          return (a, b)
+        module.impreg = world.gin.configurable('impreg', module='mm')(impreg)
     return importlib.machinery.ModuleSpec(name, _Loader())
 
 
@@ -101,7 +108,9 @@ def gen(rng, tier):
     stmts = []
     for _ in range(rng.randint(2, 8 if tier == 'thorough' else 6)):
       r = rng.random()
-      target = rng.choice(KNOWN + KNOWN + UNKNOWN + [LATE, LATE_METHOD])
+      # ('impreg' becomes known when some text imports vsim_c15_registers)
+      target = rng.choice(KNOWN + KNOWN + UNKNOWN + [LATE, LATE_METHOD] +
+                          [IMPREG, IMPREG])
       known_target = target in KNOWN
       if r < 0.55:
         stmts.append({'k': 'bind', 'scope': rng.choice(['', '', 's']),
@@ -133,10 +142,12 @@ def gen(rng, tier):
                       'module': rng.choice(['vsim_mods.alpha',
                                             'no_such_module_c15',
                                             'vsim_mods.missing_sub',
-                                            'vsim_c15_optdep']),
+                                            'vsim_c15_optdep',
+                                            'vsim_c15_registers',
+                                            'vsim_c15_registers']),
                       'alias': None})
     r = rng.random()
-    names = UNKNOWN + [LATE, LATE_METHOD] + KNOWN
+    names = UNKNOWN + [LATE, LATE_METHOD, IMPREG] + KNOWN
     if r < 0.1:
       skip = {'t': 'bool', 'v': False}
     elif r < 0.45:
@@ -212,6 +223,8 @@ def run(case):
     register('prod')
     probes.plant_module('vsim_mods.alpha')
     _install_failing_module_finder()
+    import sys
+    sys.modules.pop('vsim_c15_registers', None)   # imported anew in this world
     return fns
 
   fns = setup()
@@ -253,7 +266,9 @@ def run(case):
     dropped = kept = 0
     for s in stmts:
       if s['k'] == 'import':
-        missing = s['module'] != 'vsim_mods.alpha'
+        missing = s['module'] not in ('vsim_mods.alpha', 'vsim_c15_registers')
+        if s['module'] == 'vsim_c15_registers':
+          known_now.add(IMPREG)   # from this statement on, for good
         if missing:
           if skip:
             dropped += 1
